@@ -143,6 +143,7 @@ pub fn gen_world(rng: &mut Rng, family: Family) -> Params {
                 pinned: 0,
                 pin_kind: PinKind::RInit,
                 release: 0,
+                expire_pinned: 0,
                 chaos: *rng.pick(&[0u8, 0, 0, 5, 15]),
                 shuffle: true,
             }
@@ -174,6 +175,7 @@ pub fn gen_world(rng: &mut Rng, family: Family) -> Params {
                 pinned,
                 pin_kind: *rng.pick(&[PinKind::RInit, PinKind::Hold, PinKind::Mixed]),
                 release: 1 + rng.below(3) as u8,
+                expire_pinned: if rng.chance(1, 3) { 1 + rng.below(3) as u8 } else { 0 },
                 chaos: 0,
                 shuffle: true,
             }
@@ -195,6 +197,7 @@ pub fn gen_world(rng: &mut Rng, family: Family) -> Params {
                 // the live exchanges are the responder's own (as reports in flight would be)
                 pin_kind: PinKind::Mixed,
                 release: 0,
+                expire_pinned: 0,
                 chaos: 0,
                 shuffle: true,
             }
@@ -233,6 +236,7 @@ pub fn gen_world(rng: &mut Rng, family: Family) -> Params {
                 pinned: 0,
                 pin_kind: PinKind::RInit,
                 release: 0,
+                expire_pinned: 0,
                 chaos: 0,
                 shuffle: true,
             }
